@@ -4,6 +4,8 @@
    offer, in the code's order, with its checked subtractions). Router and vault: see Router / Vault developments. *)
 From WW Require Import Prim CPSwap Slippage CP CPInst Router.
 From WW.Proofs Require Import ArithLemmas CPSwapProofs ListLemmas CPProofs SlippageProofs QuotesProofs RouterProofs.
+From WW Require Vault.
+From WW.Proofs Require VaultQuotes.
 
 Theorem C14_pair_simulation_equals_execution : forall s who dir x b m to s' p, reachable s ->
   step the_consts s (Swap who dir x b m to) = Ok (s', p) ->
@@ -44,6 +46,14 @@ Proof.
   - vm_compute. split; reflexivity.
 Qed.
 
+(* vault: the Share query equals what a withdrawal of that many shares pays (vault machine of the C05/C06 development) *)
+Theorem C14_vault_share_equals_withdraw : forall u a st st', Vault.withdraw u a st = Ok st' ->
+  exists w, Vault.q_share st a = Ok w /\
+            Vault.get (Vault.ab st') u = Vault.get (Vault.ab st) u + w /\
+            Vault.get (Vault.ab st') Vault.VAULT = Vault.get (Vault.ab st) Vault.VAULT - w /\
+            Vault.get (Vault.lp st') u = Vault.get (Vault.lp st) u - a.
+Proof. exact VaultQuotes.share_eq_withdraw. Qed.
+
 Example C14_nonvacuous :
   let s := run the_consts (init false true (mkFees 1000000000000000 3000000000000000 500000000000000) 6 5)
              [Provide 1 2000003 1500001 None None; Swap 2 false 70001 None (Some 500000000000000000) None] in
@@ -55,3 +65,4 @@ Proof. vm_compute. repeat split; reflexivity. Qed.
 Print Assumptions C14_pair_simulation_equals_execution.
 Print Assumptions C14_router_simulation_equals_execution.
 Print Assumptions C14_refuted_route_revisits_pool.
+Print Assumptions C14_vault_share_equals_withdraw.
